@@ -1,6 +1,8 @@
 package tcpsim
 
 import (
+	"time"
+
 	"verif/sim"
 )
 
@@ -41,10 +43,17 @@ func (h *Harness) feed(ev *Event) {
 			}
 		}
 	}
+	if pk.FIN || pk.RST {
+		if h.liveAt != nil {
+			h.sdOf(h.liveAt, d).EndFed = true
+		}
+		h.endFeeding = true
+	}
 	h.feeding = pk
 	c.Ev("assemble", int64(pk.Dir), int64(pk.Seq), int64(pk.Len), b2i(pk.SYN), b2i(pk.FIN || pk.RST), ev.At)
 	h.A.Assemble(d.Net, t, T(ev.At))
 	h.feeding = nil
+	h.endFeeding = false
 	// the caller owns the buffer again: scribble over it, as a capture ring
 	// that reuses its memory would
 	for i := range buf {
@@ -147,21 +156,34 @@ func Run(c *sim.Ctx, cfg RunCfg, mk func(h *Harness) Assembler) {
 		switch ev.K {
 		case EvPkt:
 			h.feed(ev)
-		case EvFlushT, EvFlushClose:
+		case EvFlushT, EvFlushClose, EvFlushTTC:
+			ttc, hasTTC := h.A.(interface {
+				FlushTTC(t, tc time.Time) (int, int)
+			})
+			if ev.K == EvFlushTTC && !hasTTC {
+				ev.K = EvFlushT // this assembler has no separate closing cut-off
+			}
 			h.Kind = CallFlushT
-			if ev.K == EvFlushClose {
+			if ev.K != EvFlushT {
 				h.Kind = CallFlushClose
 			}
 			h.StartEv = int32(c.Events + 1)
 			h.CutOff = T(ev.At - ev.Age)
+			if ev.K == EvFlushTTC && ev.NoT {
+				h.CutOff = time.Time{}
+			}
 			h.Completes = 0
-			c.Ev("flush", int64(ev.K), ev.At, ev.Age)
+			c.Ev("flush", int64(ev.K), ev.At, ev.Age, ev.AgeC, b2i(ev.NoT))
 			c.Fault("flush_timer")
 			var fl, cl int
-			if ev.K == EvFlushT {
+			switch ev.K {
+			case EvFlushT:
 				fl, cl = h.A.FlushT(h.CutOff)
-			} else {
+			case EvFlushClose:
 				fl, cl = h.A.FlushClose(h.CutOff)
+			case EvFlushTTC:
+				c.Fault("flush_with_separate_closing_cutoff")
+				fl, cl = ttc.FlushTTC(h.CutOff, T(ev.At-ev.AgeC))
 			}
 			c.Ev("flush_ret", int64(fl), int64(cl))
 			kind := h.Kind
@@ -201,6 +223,10 @@ func (h *Harness) final(closed int) {
 		for _, s := range h.Streams {
 			for _, x := range s.sd {
 				if !x.Anchored {
+					continue
+				}
+				if x.Ended && x.Dir.Abort {
+					// what lies beyond a reset that was honoured is not owed any more
 					continue
 				}
 				for o, e := range x.fedEv {
